@@ -140,8 +140,11 @@ def impl(d):
         outs = [_pub_out(pk)]
         for enc in (pk.to_hex() if d["d"] % 2 == 0 else pk.to_hex(True), pk.to_hex(False), pk.to_x_only_hex()):
             outs.append(guarded(lambda: _pub_out(PublicKey(enc))))
+            if guarded(lambda: _pub_out(PublicKey.from_hex(enc))) != outs[-1]: outs.append("FROM_HEX_DIFFERS")
         return "||".join(outs)
     if k == "pubraw":
+        a = guarded(lambda: _pub_out(PublicKey(d["hex"]))); b = guarded(lambda: _pub_out(PublicKey.from_hex(d["hex"])))
+        if a != b: return "FROM_HEX_DIFFERS"
         return _pub_out(PublicKey(d["hex"]))
 
 
